@@ -68,7 +68,9 @@ func VerifDecodeSharedTxData(s string) (VerifSharedTxData, error) {
 func (x VerifSharedTxData) UnshiftChecksum(data []byte) []byte { return x.in().unshiftChecksum(data) }
 
 // ShiftChecksum = sharedTransactionData.shiftChecksum.
-func (x VerifSharedTxData) ShiftChecksum(data []byte) (bool, []byte) { return x.in().shiftChecksum(data) }
+func (x VerifSharedTxData) ShiftChecksum(data []byte) (bool, []byte) {
+	return x.in().shiftChecksum(data)
+}
 
 // Matches = sharedTxDataMatches for a transaction with the given nonce, ValidUntilBlock and signer accounts.
 func (x VerifSharedTxData) Matches(nonce, vub uint32, signers []util.Uint160) bool {
